@@ -412,6 +412,7 @@ def parse_via(parser_kind, parser, text, entry, tmpdir):
 class Check(PropCheck):
     id = 'C02'
     stream = 'C02'
+    extra_modules = ('AHP.Props.C02Code',)       # AdvancedHTMLParser.handle_endtag itself, interpreted in Lean, = the hand model's handleEnd
     exhaustive_in = ('quick', 'thorough')
     rule = ('token sequences over the 10-token alphabet of the property (two ordinary names, a void name, their end tags, '
             'text, a reference, a comment, a stray end tag): ALL sequences of length <= 4 (quick) / <= 6 (thorough), plus seeded '
